@@ -41,6 +41,22 @@ KNOWN_CLASSES = {
     "latex-panic:empty-barrier": "C18-latex-empty-barrier-panic",
 }
 
+# witnesses in the c18 protocol (`<nq> <nc> | calls | <shots>`) for the findings whose committed witness is written in
+# another property's protocol
+WITNESS_C18 = {
+    "D9-zero-shots-panic": "1 1 | add_conditional_gate 1 0 1 1 0 X | 0",
+    "C13-ctrl-between-targets-panic": "3 0 | add_gate 3 1 0 2 CCX | 1",
+    "C13-resetall-zero-qubits-panic": "0 0 | reset_all | 1",
+    "C13-composite-subbit-panic": "1 0 | add_gate 1 0 Comp c1 1 1 H 1 1 | 1",
+    "C19-abort-exec-cbit-ge-64": "1 65 | measure 0 64 | 1",
+    "C19-abort-exec-dup-qubits": "1 0 | cx 0 0 | 1",
+    "C19-abort-exec-measure-all-len": "1 2 | peek_all 2 0 0 | 1",
+    "C19-abort-export-qasm-arity": "1 0 | add_gate 0 H | 1",
+    "C19-abort-export-qasm-measure-all-len": "1 3 | measure_all 2 1 2 | 1",
+    "C19-abort-export-cqasm-cond-control-ge-nq": "1 2 | add_conditional_gate 1 1 1 1 0 X | 1",
+    "C19-abort-export-latex-dup-qubits": "2 0 | cx 0 0 | 1",
+}
+
 _hex_eq = vlib.hexfloat_eq(1e-9)
 
 
@@ -69,7 +85,7 @@ SPEC = {
                  "reps_same_constructor_partial",
                  "neg_zero_shots", "neg_repeated_qubit", "neg_measure_all_short", "neg_peek_all_long", "neg_cbit_ge_64",
                  "neg_controls_gt_64", "neg_cond_arity_diverges", "neg_empty_operands_export",
-                 "neg_ctrl_between_targets", "neg_reset_all_no_qubits", "neg_empty_barrier", "neg_cqasm_control_ge_nq"],
+                 "neg_ctrl_between_targets", "neg_reset_all_no_qubits", "neg_empty_barrier", "neg_cqasm_control_ge_nq", "neg_composite_subgate_out_of_range"],
     "drivers": ["drv_c18"],
     "harness_bin": "c18",
     "eq": eq,
@@ -81,11 +97,11 @@ SPEC = {
             "measure*, peek*, measure_all*, peek_all*, reset, reset_all, barrier, h x y z s sdg rx ry rz u1 u2 u3 cx): indices in range, "
             "= bound, just above, 1000, 2^40, 2^63, usize::MAX; operand lists of the right length, empty, one short, one/two/three long, "
             "distinct, with a forced repetition, out of range; control lists incl. the whole register; targets up to u64::MAX; half of the "
-            "sequences Clifford-only. Every call under catch_unwind: outcome (ok / error constructor + payload / PANIC) and, after a "
-            "failed call, whether the three exports and is_stabilizer_circuit() are unchanged. Then open_qasm / c_qasm / latex (class), "
-            "execute_with on QuStateRepr::vector and ::stabilizer and reexecute with 0/1/2/3/5 shots: every traced operation is re-run by "
+            "sequences Clifford-only; one gate in eight is a Composite / Loop (0-4 iterations) of library gates built by Composite::add_gate or Composite::from_string, with sub-gates on local indices >= width, repeated or mis-sized; a sibling stream calls every sibling method (measure/peek/_x/_y/_z/_basis; measure_all/peek_all/_basis; reset/h/../u3/add_gate/add_conditional_gate/barrier/cx) with the SAME boundary arguments (bound-1, bound, bound+1, 62..65, usize::MAX; descending lists; nr_cbits = 63/64/65; control lists of exactly nr_cbits bits). Every call under catch_unwind: outcome (ok / error constructor + payload / PANIC) and, after a "
+            "failed call, whether Circuit::verif_nr_ops(), the three exports and is_stabilizer_circuit() are unchanged; the final number of operations. Then open_qasm / c_qasm / latex (class), "
+            "execute_with on QuStateRepr::vector and ::stabilizer, reexecute after each (also after an error inside a run), and execute_with(vector) once more on the same object, with 0/1/2/3/5 shots: every traced operation is re-run by "
             "the Lean model from the implementation's own pre-state with its logged draws (step lines), the failing operation too. "
-            "Macro stream: 41 compiled circuit! invocations, one per builder method with a failing call in the middle (arguments count "
+            "Macro stream: 46 compiled circuit! invocations, one per builder method with a failing call in the middle (arguments count "
             "their own evaluations), plus failing first/last calls and zero-width registers. (B): builders vs the reference reading "
             "(first out-of-range index), no PANIC anywhere, identical rejection by both representations, macro returns the first error; "
             "every failure carries the violated WellFormed conjunct as class tag. "
@@ -103,7 +119,7 @@ def replay_known(ctx):
     if not (os.path.exists(exe) and os.path.exists(drv)):
         return
     for f in vlib.load_known(ctx.pid):
-        w = f.get("witness", "")
+        w = WITNESS_C18.get(f["id"], f.get("witness", ""))
         if f.get("status") != "open" or w.count(" | ") < 1 or not w[:1].isdigit():
             continue
         d = os.path.join(ctx.rundir, "witness_" + f["id"])
@@ -138,10 +154,12 @@ def run(ctx):
     replay_known(ctx)
     ctx.assumptions += [
         "no_panic_partial / no_panic_reexecute_partial: vector representation only, hypothesis ExecWF (the execution-relevant "
-        "conjuncts of WellFormed) and gate terms without Composite/Loop; the numeric panic site WeightedIndex::new(..).unwrap() "
+        "conjuncts of WellFormed, incl. well-formed Composite/Loop bodies and nr_qbits < 64); the numeric panic site WeightedIndex::new(..).unwrap() "
         "(all-zero / NaN weights) is not excluded by operand shapes (C02 excludes it in exact arithmetic)",
         "exec_either_representation_partial / reps_same_constructor_partial: for the stabilizer representation the per-operation "
-        "safety record BackendSafe is a HYPOTHESIS (the obligation of C03: tableau operations on well-shaped tableaux return); it is "
+        "safety record BackendSafe is a HYPOTHESIS; its tableau-level content is stated as `TabTotal` (Proofs/NoPanicGeneric.lean: "
+        "follows for n <= 2 and C03's gate set from TableauFinite.{gates,measure,reset}_exhaustive), the lift `StabLiftObligation` "
+        "from tableaux to StabilizerState is not proved; the record is "
         "validated by the correspondence run (every traced operation of every stabilizer run), not proved",
         "exporters: that a WellFormed circuit is exported without a panic is NOT proved; the outcome class of open_qasm / c_qasm is "
         "compared with a class predicate written from the exporter code (Model/ExportClass.lean), of latex with the C13 model; "
